@@ -3,8 +3,8 @@
 
   A small generator-body language (locals, integer/string expressions with `yield` allowed in every
   expression position, log, if/while/for, try/catch/finally, for-of over arrays and over scripted
-  iterators / other generators, a closure that updates a captured local, return, throw, break, `yield*`
-  delegation to scripted iterators incl. ones missing `throw`/`return`) is given meaning by a
+  iterators / other generators, a closure that updates a captured local, return, throw, break/continue (optionally labelled), `yield*`
+  delegation to scripted iterators incl. ones missing `throw`/`return` or whose `return` throws) is given meaning by a
   defunctionalised CEK machine: `step` is a NON-recursive transition function on configurations
   (control, environment, continuation stack), `run` iterates it (fuel), and a suspended generator is
   just a stored configuration.  `genCall` is the generatorObject state machine of /repo/func.go:916-1089
@@ -30,11 +30,12 @@ structure Cmd where
 deriving DecidableEq, Repr, Inhabited
 
 /-- A scripted iterator / inner generator (see design/C09.md for the JavaScript each one denotes).
+`ret`: 0 = no `return` method, 1 = `return(v)` answers `{value: v, done: true}`, 2 = `return` throws the string "X<id>".
 `thr`: 0 = no `throw` method, 1 = rethrows, 2 = returns `{done:true}`, 3 = returns `{done:false}`. -/
 structure IterSpec where
   id : Nat
   isGen : Bool
-  hasRet : Bool
+  ret : Nat
   thr : Nat
   items : List Val
 deriving DecidableEq, Repr, Inhabited
@@ -62,30 +63,35 @@ inductive Cond where
   | cmp (neg : Bool) (a b : Expr)                    -- a === b / a !== b
 deriving Repr, Inhabited
 
+/-- Loop label (`Lk: for …`), `none` = unlabelled; in `break`/`continue`, `none` = innermost loop. -/
+abbrev Label := Option Nat
+
 inductive Stmt where
   | expr (e : Expr)
   | log (e : Expr)
   | letArr (targets : List (Nat × Option Expr)) (src : List (Bool × Expr))
   | ite (c : Cond) (t e : List Stmt)
-  | forS (x : Nat) (n : Nat) (body : List Stmt)
-  | whileS (c : Cond) (body : List Stmt)
+  | forS (l : Label) (x : Nat) (n : Nat) (body : List Stmt)     -- for (x = 0; x !== n; x = x + 1)
+  | whileS (l : Label) (c : Cond) (body : List Stmt)
   | tryS (b : List Stmt) (c : Option (Nat × List Stmt)) (f : Option (List Stmt))
-  | forOfArr (x : Nat) (src : List (Bool × Expr)) (body : List Stmt)
-  | forOfIter (x : Nat) (it : IterSpec) (body : List Stmt)
+  | forOfArr (l : Label) (x : Nat) (src : List (Bool × Expr)) (body : List Stmt)
+  | forOfIter (l : Label) (x : Nat) (it : IterSpec) (body : List Stmt)
   | ret (e : Expr)
   | thr (e : Expr)
-  | brk
+  | brk (l : Label)
+  | cont (l : Label)
 deriving Repr, Inhabited
 
 inductive Completion where
   | thr (v : Val)
-  | ret (v : Val) (fromCmd : Bool)   -- fromCmd: injected by the driver's return(v), not a `return` statement
-  | brk
+  | ret (v : Val)
+  | brk (l : Label)
+  | cont (l : Label)
 deriving Repr, Inhabited
 
 inductive ArgsThen where
   | callJ
-  | forArr (x : Nat) (body : List Stmt)
+  | forArr (l : Label) (x : Nat) (body : List Stmt)
   | letArr (targets : List (Nat × Option Expr))
 deriving Repr, Inhabited
 
@@ -98,13 +104,14 @@ inductive Frame where
   | condL (neg : Bool) (b : Expr) | condR (neg : Bool) (a : Val)
   | iteK (t e : List Stmt)
   | seqK (rest : List Stmt)
-  | whileK (c : Cond) (body : List Stmt)
-  | whileBodyK (c : Cond) (body : List Stmt)
+  | whileK (l : Label) (c : Cond) (body : List Stmt)         -- the condition is being evaluated
+  | whileBodyK (l : Label) (c : Cond) (body : List Stmt)     -- the body is running
+  | forBodyK (l : Label) (x : Nat) (n : Nat) (body : List Stmt)
   | tryK (c : Option (Nat × List Stmt)) (f : Option (List Stmt))
   | catchK (f : Option (List Stmt))
-  | finK (pending : Option Completion) (armed : Bool)  -- armed: entered by normal completion of a try block that has a catch
-  | forOfK (x : Nat) (it : IterState) (body : List Stmt)
-  | forArrK (x : Nat) (rest : List Val) (body : List Stmt)
+  | finK (pending : Option Completion)
+  | forOfK (l : Label) (x : Nat) (it : IterState) (body : List Stmt)
+  | forArrK (l : Label) (x : Nat) (rest : List Val) (body : List Stmt)
   | letArrK (x : Nat) (vals : List Val) (targets : List (Nat × Option Expr))
 deriving Repr, Inhabited
 
@@ -117,8 +124,9 @@ inductive Ctl where
   | args (done : List Val) (rest : List (Bool × Expr)) (th : ArgsThen)
   | tmplGo (acc : String) (rest : List (Expr × String))
   | letArrGo (vals : List Val) (targets : List (Nat × Option Expr))
-  | forOfGo (x : Nat) (it : IterState) (body : List Stmt)
-  | forArrGo (x : Nat) (rest : List Val) (body : List Stmt)
+  | forGo (l : Label) (x : Nat) (n : Nat) (body : List Stmt)
+  | forOfGo (l : Label) (x : Nat) (it : IterState) (body : List Stmt)
+  | forArrGo (l : Label) (x : Nat) (rest : List Val) (body : List Stmt)
 deriving Repr, Inhabited
 
 structure Conf where
@@ -172,7 +180,7 @@ def spreadOf : Val → Option (List Val)
 
 def IterSpec.tag (s : IterSpec) : String := "I" ++ natStr s.id
 def IterSpec.hasThrow (s : IterSpec) : Bool := s.isGen || s.thr != 0
-def IterSpec.hasReturn (s : IterSpec) : Bool := s.isGen || s.hasRet
+def IterSpec.hasReturn (s : IterSpec) : Bool := s.isGen || s.ret != 0
 def IterState.init (s : IterSpec) : IterState := ⟨s, 0, false⟩
 
 inductive IterOut where
@@ -201,11 +209,18 @@ def iterThrow (st : IterState) (e : Val) : List Event × IterOut :=
 /-- Only called when `hasReturn`. -/
 def iterReturn (st : IterState) (v : Val) : List Event × IterOut :=
   let s := st.spec
-  if s.isGen then ([s.tag ++ "f"], .done v) else ([s.tag ++ "r" ++ showVal v], .done v)
+  if s.isGen then ([s.tag ++ "f"], .done v)
+  else if s.ret == 2 then ([s.tag ++ "r" ++ showVal v], .threw (.str ("X" ++ natStr s.id)))
+  else ([s.tag ++ "r" ++ showVal v], .done v)
 
-/-- IteratorClose / `returnIter` (runtime.go:2773): calls `return()` without arguments if present. -/
-def iterClose (st : IterState) : List Event :=
-  if st.spec.hasReturn then (iterReturn st .undef).1 else []
+/-- IteratorClose (§7.4.11) / `returnIter` (runtime.go): calls `return()` without arguments if present; the second
+component is the error `return()` threw, if any (the caller decides whether it replaces the completion). -/
+def iterClose (st : IterState) : List Event × Option Val :=
+  if st.spec.hasReturn then
+    match iterReturn st .undef with
+    | (ev, .threw e) => (ev, some e)
+    | (ev, _) => (ev, none)
+  else ([], none)
 
 /-! ## The generator object's decision before any body code runs (func.go:916 validate, 982 next, 1004 throw,
 1035 _return) — non-recursive so that the body's re-entrant calls can use it. -/
@@ -258,53 +273,46 @@ def delegCmd (it : IterState) (cmd : Cmd) (c : Conf) : StepOut :=
       | (ev, .yielded v it') => .yielded v c (some it') ev
       | (ev, .done v) => .cont { c with ctl := .val v } ev
       | (ev, .threw e) => .cont { c with ctl := .abrupt (.thr e) } ev
-    else .cont { c with ctl := .abrupt (.thr .terr) } (iterClose it)       -- func.go:1018-1020
+    else
+      match iterClose it with                                                   -- func.go:1018-1020
+      | (ev, some e) => .cont { c with ctl := .abrupt (.thr e) } ev              -- return() threw: that error wins
+      | (ev, none) => .cont { c with ctl := .abrupt (.thr .terr) } ev
   | .ret =>
     if it.spec.hasReturn then
       match iterReturn it cmd.payload with
       | (ev, .yielded v it') => .yielded v c (some it') ev
-      | (ev, .done v) => .cont { c with ctl := .abrupt (.ret v true) } ev
+      | (ev, .done v) => .cont { c with ctl := .abrupt (.ret v) } ev
       | (ev, .threw e) => .cont { c with ctl := .abrupt (.thr e) } ev
-    else .cont { c with ctl := .abrupt (.ret cmd.payload true) } []             -- func.go:1051-1052
+    else .cont { c with ctl := .abrupt (.ret cmd.payload) } []                   -- func.go:1051-1052
 
-def isBrk : Completion → Bool | .brk => true | _ => false
+/-- Does a loop labelled `lf` consume `break l` / `continue l`? -/
+def loopCatches (lf l : Label) : Bool := l.isNone || l == lf
 
-/-- Marker events (prefix `!`, never part of the observable log: the driver strips them).  They flag the two
-situations in which the pinned goja is known to deviate (design/C09.md, known_findings.d/C09.json):
-`!A` a throw completion leaves a finally block that was entered by normal completion of a try block with a catch;
-`!B` a throw completion exists while a finally block entered because of the driver's return(v) is running, or any\nabrupt completion (break, return statement, throw) abandons such a block. -/
-def defectMarks (cp : Completion) (pending : Option Completion) (armed : Bool) : List Event :=
-  (match cp with
-   | .thr _ => if armed then ["!A"] else []
-   | _ => []) ++
-  (match pending with
-   | some (.ret _ true) => ["!B"]      -- any abrupt completion abandons a finally block entered by return(v)
-   | _ => [])
+/-- What a loop frame does with an abrupt completion: `some true` = break out of it, `some false` = continue it,
+`none` = not for this loop. -/
+def loopAction (lf : Label) : Completion → Option Bool
+  | .brk l => if loopCatches lf l then some true else none
+  | .cont l => if loopCatches lf l then some false else none
+  | _ => none
 
-def isRetFin : Frame → Bool
-  | .finK (some (.ret _ true)) _ => true
-  | _ => false
+def isThr : Completion → Bool | .thr _ => true | _ => false
 
-def throwMarks (cp : Completion) (k : List Frame) : List Event :=
-  match cp with
-  | .thr _ => if k.any isRetFin then ["!B"] else []
-  | _ => []
-
-def StepOut.addEv (pre : List Event) : StepOut → StepOut
-  | .cont c ev => .cont c (pre ++ ev)
-  | .yielded v c d ev => .yielded v c d (pre ++ ev)
-  | .finished r ev => .finished r (pre ++ ev)
+/-- Instrumentation event (prefix `!`, never part of the observable log — the driver strips it): the exception
+created here is one goja raises by a Go panic (native method, runtime TypeError, an iterator's `return()` throwing
+during loop exit) rather than by the `throw` instruction.  Used only to recognise the one unrepaired defect listed in
+known_findings.d/C09.json (such an exception caught while `generator.returning` is set). -/
+def panicMark : List Event := ["!p"]
 
 /-- Unwinding: one step of an abrupt completion `cp` against the top continuation frame. -/
 def stepAbrupt (c : Conf) (cp : Completion) : StepOut :=
   let env := c.env
-  let k := c.k
-  match k with
+  match c.k with
   | [] =>
     match cp with
     | .thr v => .finished (.t v) []
-    | .ret v _ => .finished (.d v) []
-    | .brk => .finished (.d .undef) []
+    | .ret v => .finished (.d v) []
+    | .brk _ => .finished (.d .undef) []
+    | .cont _ => .finished (.d .undef) []
   | f :: k' =>
     match f with
     | .tryK cc fin =>
@@ -312,18 +320,37 @@ def stepAbrupt (c : Conf) (cp : Completion) : StepOut :=
       | .thr v, some (x, cb) => .cont { ctl := .exec cb, env := env.set x (canonErr v), k := .catchK fin :: k' } []
       | _, _ =>
         match fin with
-        | some fb => .cont { c with ctl := .exec fb, k := .finK (some cp) false :: k' } []
+        | some fb => .cont { c with ctl := .exec fb, k := .finK (some cp) :: k' } []
         | none => .cont { c with k := k' } []
     | .catchK fin =>
       match fin with
-      | some fb => .cont { c with ctl := .exec fb, k := .finK (some cp) false :: k' } []
+      | some fb => .cont { c with ctl := .exec fb, k := .finK (some cp) :: k' } []
       | none => .cont { c with k := k' } []
-    | .finK pending armed => .cont { c with k := k' } (defectMarks cp pending armed)
-    | .forOfK _ it _ =>
-      if isBrk cp then .cont { c with ctl := .val .undef, k := k' } (iterClose it)
-      else .cont { c with k := k' } (iterClose it)
-    | .whileBodyK _ _ | .forArrK _ _ _ =>
-      if isBrk cp then .cont { c with ctl := .val .undef, k := k' } [] else .cont { c with k := k' } []
+    | .forOfK lf x it body =>
+      match loopAction lf cp with
+      | some false => .cont { c with ctl := .forOfGo lf x it body, k := k' } []          -- continue: next iteration
+      | act =>
+        -- leaving the loop: IteratorClose; an error from return() replaces every completion but a throw
+        match iterClose it with
+        | (ev, some e) =>
+          if isThr cp then .cont { c with k := k' } ev else .cont { c with ctl := .abrupt (.thr e), k := k' } (ev ++ panicMark)
+        | (ev, none) =>
+          if act.isSome then .cont { c with ctl := .val .undef, k := k' } ev else .cont { c with k := k' } ev
+    | .whileBodyK lf cd body =>
+      match loopAction lf cp with
+      | some true => .cont { c with ctl := .val .undef, k := k' } []
+      | some false => .cont { c with ctl := .evalC cd, k := .whileK lf cd body :: k' } []
+      | none => .cont { c with k := k' } []
+    | .forBodyK lf x n body =>
+      match loopAction lf cp with
+      | some true => .cont { c with ctl := .val .undef, k := k' } []
+      | some false => .cont { ctl := .forGo lf x n body, env := env.set x (addV (envGet env x) (.num 1)), k := k' } []
+      | none => .cont { c with k := k' } []
+    | .forArrK lf x rest body =>
+      match loopAction lf cp with
+      | some true => .cont { c with ctl := .val .undef, k := k' } []
+      | some false => .cont { c with ctl := .forArrGo lf x rest body, k := k' } []
+      | none => .cont { c with k := k' } []
     | _ => .cont { c with k := k' } []
 
 /-- The transition function.  Non-recursive: every case is one machine step. -/
@@ -345,8 +372,8 @@ def step (c : Conf) : StepOut :=
     | .reent kd =>
       -- the body only ever runs while the object is `executing`
       match genPre .executing ⟨kd, .num 1⟩ with
-      | .reject => .cont { c with ctl := .abrupt (.thr .terr) } []
-      | _ => .cont { c with ctl := .abrupt (.thr .terr) } []
+      | .reject => .cont { c with ctl := .abrupt (.thr .terr) } panicMark
+      | _ => .cont { c with ctl := .abrupt (.thr .terr) } panicMark
   | .evalC (.cmp neg a b) => .cont { c with ctl := .evalE a, k := .condL neg b :: k } []
   | .args done rest th =>
     match rest with
@@ -354,7 +381,7 @@ def step (c : Conf) : StepOut :=
     | [] =>
       match th with
       | .callJ => .cont { c with ctl := .val (jOf done) } []
-      | .forArr x body => .cont { c with ctl := .forArrGo x done body } []
+      | .forArr l x body => .cont { c with ctl := .forArrGo l x done body } []
       | .letArr ts => .cont { c with ctl := .letArrGo done ts } []
   | .tmplGo acc rest =>
     match rest with
@@ -368,15 +395,18 @@ def step (c : Conf) : StepOut :=
       match v, d with
       | .undef, some e => .cont { c with ctl := .evalE e, k := .letArrK x vals.tail ts' :: k } []
       | _, _ => .cont { c with ctl := .letArrGo vals.tail ts', env := env.set x v } []
-  | .forOfGo x it body =>
+  | .forGo l x n body =>
+    if eqV (envGet env x) (.num n) then .cont { c with ctl := .val .undef } []
+    else .cont { c with ctl := .exec body, k := .forBodyK l x n body :: k } []
+  | .forOfGo l x it body =>
     match iterNext it .undef with
-    | (ev, .yielded v it') => .cont { ctl := .exec body, env := env.set x v, k := .forOfK x it' body :: k } ev
+    | (ev, .yielded v it') => .cont { ctl := .exec body, env := env.set x v, k := .forOfK l x it' body :: k } ev
     | (ev, .done _) => .cont { c with ctl := .val .undef } ev
     | (ev, .threw e) => .cont { c with ctl := .abrupt (.thr e) } ev
-  | .forArrGo x rest body =>
+  | .forArrGo l x rest body =>
     match rest with
     | [] => .cont { c with ctl := .val .undef } []
-    | v :: r => .cont { ctl := .exec body, env := env.set x v, k := .forArrK x r body :: k } []
+    | v :: r => .cont { ctl := .exec body, env := env.set x v, k := .forArrK l x r body :: k } []
   | .exec ss =>
     match ss with
     | [] => .cont { c with ctl := .val .undef } []
@@ -387,17 +417,15 @@ def step (c : Conf) : StepOut :=
       | .log e => .cont { c with ctl := .evalE e, k := .logK :: k1 } []
       | .letArr ts src => .cont { c with ctl := .args [] src (.letArr ts), k := k1 } []
       | .ite cd t e => .cont { c with ctl := .evalC cd, k := .iteK t e :: k1 } []
-      | .forS x n body =>
-        .cont { c with ctl := .exec [.expr (.asg x (.lit (.num 0))),
-                  .whileS (.cmp true (.var x) (.lit (.num n)))
-                    (body ++ [.expr (.asg x (.add (.var x) (.lit (.num 1))))])], k := k1 } []
-      | .whileS cd body => .cont { c with ctl := .evalC cd, k := .whileK cd body :: k1 } []
+      | .forS l x n body => .cont { ctl := .forGo l x n body, env := env.set x (.num 0), k := k1 } []
+      | .whileS l cd body => .cont { c with ctl := .evalC cd, k := .whileK l cd body :: k1 } []
       | .tryS b cc f => .cont { c with ctl := .exec b, k := .tryK cc f :: k1 } []
-      | .forOfArr x src body => .cont { c with ctl := .args [] src (.forArr x body), k := k1 } []
-      | .forOfIter x s body => .cont { c with ctl := .forOfGo x (IterState.init s) body, k := k1 } []
+      | .forOfArr l x src body => .cont { c with ctl := .args [] src (.forArr l x body), k := k1 } []
+      | .forOfIter l x s body => .cont { c with ctl := .forOfGo l x (IterState.init s) body, k := k1 } []
       | .ret e => .cont { c with ctl := .evalE e, k := .retK :: k1 } []
       | .thr e => .cont { c with ctl := .evalE e, k := .thrK :: k1 } []
-      | .brk => .cont { c with ctl := .abrupt .brk, k := k1 } []
+      | .brk l => .cont { c with ctl := .abrupt (.brk l), k := k1 } []
+      | .cont l => .cont { c with ctl := .abrupt (.cont l), k := k1 } []
   | .val v =>
     match k with
     | [] => .finished (.d .undef) []
@@ -410,7 +438,7 @@ def step (c : Conf) : StepOut :=
         if sp then
           match spreadOf v with
           | some vs => .cont { c with ctl := .args (done ++ vs) rest th, k := k' } []
-          | none => .cont { c with ctl := .abrupt (.thr .terr), k := k' } []
+          | none => .cont { c with ctl := .abrupt (.thr .terr), k := k' } panicMark
         else .cont { c with ctl := .args (done ++ [v]) rest th, k := k' } []
       | .tmplK acc l rest => .cont { c with ctl := .tmplGo (acc ++ toStr v ++ l) rest, k := k' } []
       | .asgK x => .cont { ctl := .val v, env := env.set x v, k := k' } []
@@ -418,32 +446,30 @@ def step (c : Conf) : StepOut :=
         let nv := addV (envGet env x) v
         .cont { ctl := .val nv, env := env.set x nv, k := k' } []
       | .logK => .cont { c with ctl := .val .undef, k := k' } [showVal v]
-      | .retK => .cont { c with ctl := .abrupt (.ret v false), k := k' } []
+      | .retK => .cont { c with ctl := .abrupt (.ret v), k := k' } []
       | .thrK => .cont { c with ctl := .abrupt (.thr v), k := k' } []
       | .condL neg b => .cont { c with ctl := .evalE b, k := .condR neg v :: k' } []
       | .condR neg a => .cont { c with ctl := .val (.num (if (eqV a v) != neg then 1 else 0)), k := k' } []
       | .iteK t e => .cont { c with ctl := .exec (if v = .num 1 then t else e), k := k' } []
       | .seqK rest => .cont { c with ctl := .exec rest, k := k' } []
-      | .whileK cd body =>
-        if v = .num 1 then .cont { c with ctl := .exec body, k := .whileBodyK cd body :: k' } []
+      | .whileK l cd body =>
+        if v = .num 1 then .cont { c with ctl := .exec body, k := .whileBodyK l cd body :: k' } []
         else .cont { c with ctl := .val .undef, k := k' } []
-      | .whileBodyK cd body => .cont { c with ctl := .evalC cd, k := .whileK cd body :: k' } []
-      | .tryK cc fin =>
+      | .whileBodyK l cd body => .cont { c with ctl := .evalC cd, k := .whileK l cd body :: k' } []
+      | .forBodyK l x n body =>
+        .cont { ctl := .forGo l x n body, env := env.set x (addV (envGet env x) (.num 1)), k := k' } []
+      | .tryK _ fin | .catchK fin =>
         match fin with
-        | some fb => .cont { c with ctl := .exec fb, k := .finK none cc.isSome :: k' } []
+        | some fb => .cont { c with ctl := .exec fb, k := .finK none :: k' } []
         | none => .cont { c with ctl := .val .undef, k := k' } []
-      | .catchK fin =>
-        match fin with
-        | some fb => .cont { c with ctl := .exec fb, k := .finK none false :: k' } []
-        | none => .cont { c with ctl := .val .undef, k := k' } []
-      | .finK pending _ =>
+      | .finK pending =>
         match pending with
         | none => .cont { c with ctl := .val .undef, k := k' } []
         | some cp => .cont { c with ctl := .abrupt cp, k := k' } []
-      | .forOfK x it body => .cont { c with ctl := .forOfGo x it body, k := k' } []
-      | .forArrK x rest body => .cont { c with ctl := .forArrGo x rest body, k := k' } []
+      | .forOfK l x it body => .cont { c with ctl := .forOfGo l x it body, k := k' } []
+      | .forArrK l x rest body => .cont { c with ctl := .forArrGo l x rest body, k := k' } []
       | .letArrK x vals ts => .cont { ctl := .letArrGo vals ts, env := env.set x v, k := k' } []
-  | .abrupt cp => (stepAbrupt c cp).addEv (throwMarks cp k)
+  | .abrupt cp => stepAbrupt c cp
 
 inductive RunOut where
   | yielded (v : Val) (c : Conf) (deleg : Option IterState) (ev : List Event)
@@ -482,7 +508,7 @@ def resumeCtl (cmd : Cmd) : Ctl :=
   match cmd.kind with
   | .next => .val cmd.payload
   | .throw => .abrupt (.thr cmd.payload)
-  | .ret => .abrupt (.ret cmd.payload true)
+  | .ret => .abrupt (.ret cmd.payload)
 
 /-- One driver call on the generator object: (log events, result, next state). -/
 def genCall (fuel : Nat) (g : GState) (cmd : Cmd) : List Event × Result × GState :=
